@@ -259,6 +259,37 @@ pub fn route_remainders_u8_u16_p5() {
     let mut j = 0; while j < comp.n { assert!(comp.buf[j] == data[prefix.n + j], "C13: restored words differ from the original data"); j += 1; }
 }
 
+/// C13 / C14 / C10: one precision change from ANY head state. Increasing keeps the compressed
+/// side (head and words) and re-establishes the head invariant at the new precision; decreasing
+/// fails with OutOfRemainders exactly when the head must be refilled and no remainders are left
+/// (never a silent Ok), and otherwise re-establishes the invariant at the new precision.
+#[cfg_attr(kani, kani::proof)]
+#[cfg_attr(kani, kani::unwind(10))]
+#[cfg_attr(kani, kani::solver(kissat))]
+pub fn precision_step_u8_u16() {
+    if group(2) == 0 {
+        let s0 = u8_u16_p3::any_state();
+        let c = u8_u16_p3::mk(&s0);
+        let c5 = match c.change_precision::<5>() { Ok(c) => c, Err(_) => return };
+        let s1 = u8_u16_p5::obs(&c5);
+        assert!(s1.ch == s0.ch && s1.comp.n == s0.comp.n, "C14/C13: increasing the precision changed the compressed side (held-back bits lost)");
+        assert!(u8_u16_p5::inv(&s1), "C13/C10/C20: head invariant lost by a precision increase");
+    } else {
+        let s0 = u8_u16_p5::any_state();
+        let c = u8_u16_p5::mk(&s0);
+        let need_refill = (s0.r as u32) < (1u32 << (16 - 3 - 8));
+        match c.change_precision::<3>() {
+            Ok(c3) => {
+                let s1 = u8_u16_p3::obs(&c3);
+                assert!(!(need_refill && s0.rem.n == 0), "C13: decreasing the precision without remainders to refill the head must fail, not succeed silently");
+                assert!(s1.ch == s0.ch && s1.comp.n == s0.comp.n, "C14/C13: decreasing the precision changed the compressed side");
+                assert!((s1.r as u32) >= (1u32 << (16 - 8 - 3)), "C13/C10/C20: head invariant (lower bound) lost by a precision decrease");
+            }
+            Err(_) => assert!(need_refill && s0.rem.n == 0, "C13: decreasing the precision failed although the head needs no refill or remainders are available"),
+        }
+    }
+}
+
 /// C13 (bounded): precision change P -> P' -> P between symbols is undone exactly.
 #[cfg_attr(kani, kani::proof)]
 #[cfg_attr(kani, kani::unwind(10))]
@@ -271,6 +302,6 @@ pub fn precision_change_u8_u16() {
     if group(2) == 1 { assert!(u8_u16_p5::inv(&u8_u16_p5::obs(&c5)), "C13/C10/C20: head invariant lost by a precision change (the next decode may overflow)"); return; }
     let c3 = match c5.change_precision::<3>() { Ok(c) => c, Err(_) => { assert!(false, "C13: undoing a precision change failed"); return; } };
     let s1 = u8_u16_p3::obs(&c3);
-    assert!(s1.ch == s0.ch && s1.r == s0.r && s1.comp.n == s0.comp.n && s1.rem.n == s0.rem.n, "C13: precision change P->P'->P is not the identity");
+    assert!(s1.ch == s0.ch && s1.r == s0.r && s1.comp.n == s0.comp.n && s1.rem.n == s0.rem.n, "C13/C14: precision change P->P'->P is not the identity");
     let mut i = 0; while i < s0.rem.n { assert!(s1.rem.buf[i] == s0.rem.buf[i], "C13: precision change altered remainders"); i += 1; }
 }
